@@ -28,7 +28,7 @@ DEV_NO_MC = bool(os.environ.get("VERIF_PIPELINE_DEV_NO_MC"))      # development 
 # when a deviation is repaired in /repo flip it to False: the model, the trace predicates and the expectations below follow.
 AS_CODED = {
     "Fa": True,   # a continuous feed drops the low part of its since token for good          (changes.go, ContKeepsLow = FALSE)
-    "Fc": True,   # DocChanged ignores recent_sequences at/above unused_sequences[0]          (change_cache.go, RecentCutAtUnused = TRUE)
+    "Fc": False,  # (repaired in /repo: fix e2e3c6c) DocChanged ignored recent_sequences at/above unused_sequences[0]          (change_cache.go, RecentCutAtUnused = TRUE)
     "Fb": True,   # lowSequence = 0 when sequence 1 of a new database is the oldest skipped   (changes.go; only with Base = 0)
 }
 OWNER = {"ResumeSafe": "C08", "NoLostChange": "C08", "ContDelivers": "C01", "FeedAnnouncesFinal": "C05", "FeedSound": "C05", "RowsAreCommitted": "C05",
@@ -66,6 +66,10 @@ def mc(ctx, cfg, tag, env, timeout=1500, expect=None, count=True):
     """exhaustive run; expect = name of the invariant/property that MUST be violated (a named deviation or a model-level mutation)"""
     r = tlc(ctx, SPEC, "MC_Pipeline", cfg, timeout=timeout, coverage=False, env=dict(JOPT, **env), workers=max(1, NCPU // POOL), tag=tag,
             allow_violation=True)
+    import re
+    m = re.search(r"Temporal property (\S+) was violated", r.out)
+    if m:                                   # core.tlc only knows the "Temporal properties were violated" wording
+        r.inv_violated, r.error_text = m.group(1), None
     if r.error_text:
         raise Inconclusive("TLC error in MC_Pipeline/%s [%s]: %s\n%s" % (cfg, tag, r.error_text, r.out[-1500:]))
     if expect:
@@ -120,7 +124,7 @@ def model_jobs(ctx):
         for m, inv, cl in (("norelease", "LedgerAccounted", "os"), ("norecent", "QuietAccounted", "os"), ("nolow", "ResumeSafe", "os")):
             jobs["mut-" + m] = (lambda m=m, inv=inv, cl=cl: mc(ctx, "MC_Pipeline.cfg", "mut-" + m, dict(ac, PL_CLIENTS=cl, PL_MUT=m), 3000, expect=inv, count=False))
         jobs["mut-nowake"] = lambda: mc(ctx, "Live_Pipeline.cfg", "mut-nowake", dict(ac, PL_CLIENTS="ct", PL_MUT="nowake_late", PL_MAXSEQ="4"), 6000,
-                                        expect="TemporalProperty", count=False)
+                                        expect="NoLostChange", count=False)
     return jobs
 
 
